@@ -365,6 +365,29 @@ pub fn gen(ctx: &Ctx) {
         let res = run(&case);
         out.emit(&case, &res, "burst", true);
     }
+    // pipelined requests on one connection (since the repair of F20c): 2..3 requests in one segment or cut in two, the answers
+    // read afterwards - in epoll mode a request that was read together with its predecessor is served by the same job
+    for _ in 0..(if ctx.thorough { 60 } else { 8 }) {
+        let k = rng.range(2, 3) as usize;
+        let mut all: Vec<u8> = Vec::new();
+        for j in 0..k {
+            let blen = rng.range(0, 20) as usize;
+            let payload: Vec<u8> = (0..blen).map(|_| b'a' + rng.below(26) as u8).collect();
+            let (fields, body) = match rng.below(3) {
+                0 => (vec![], vec![]),
+                1 => (vec![("Content-Length".to_string(), blen.to_string().into_bytes())], payload.clone()),
+                _ => (vec![("Transfer-Encoding".to_string(), b"chunked".to_vec())], crate::s_body::encode_chunked(&mut rng, &payload)),
+            };
+            let path = match rng.below(4) { 0 => "/none".to_string(), 1 => "/first".to_string(), _ => format!("/all?p={j}") };
+            let r = Req { method: if body.is_empty() && fields.is_empty() { "GET" } else { "POST" }, path, fields, body };
+            all.extend(r.head()); all.extend(&r.body);
+        }
+        let mut steps: Vec<String> = if rng.chance(1, 2) { vec![format!("D{}", hex(&all))] } else { let c = rng.range(1, all.len() as u64 - 1) as usize; vec![format!("D{}", hex(&all[..c])), format!("D{}", hex(&all[c..]))] };
+        for _ in 0..k { steps.push("R".into()); }
+        let case = format!("P:{}", steps.join(";"));
+        let r = run(&case);
+        out.emit(&case, &r, "pipelined", true);
+    }
     // the close-signal histories of `modes09`, once
     close_signal_histories(ctx, &mut rng, &mut out, 1);
     // interim responses: k requests with Expect: 100-continue on one connection (the application model has no interim
